@@ -56,6 +56,7 @@ def parseOp (t : String) : Option Op :=
   else if t.startsWith "w" then (natAfter t 1).map Op.wrap
   else if t.startsWith "t" then (natAfter t 1).map Op.take
   else if t.startsWith "g" then (natAfter t 1).map Op.get
+  else if t.startsWith "D" then (natAfter t 1).map Op.dupHandleFail
   else if t.startsWith "d" then (natAfter t 1).map Op.dupHandle
   else if t.startsWith "c" then (natAfter t 1).map Op.cloneHandle
   else none
